@@ -1,0 +1,12 @@
+//go:build verif
+
+package apk
+
+// VerifFilterAccepts reports whether filterPackages lets the single candidate
+// (name, version, provides) through for the version and operator of the given
+// constraint string (build tag verif only).
+func VerifFilterAccepts(name, version string, provides []string, constraint string) bool {
+	c := ResolvePackageNameVersionPin(constraint)
+	cand := &repositoryPackage{RepositoryPackage: &RepositoryPackage{Package: &Package{Name: name, Version: version, Provides: provides}}}
+	return len(filterPackages([]*repositoryPackage{cand}, map[*RepositoryPackage]string{}, withVersion(c.version, c.dep))) == 1
+}
